@@ -404,6 +404,12 @@ func (a *Analysis) onlySyncCallback(f *ssa.Function) bool {
 					if !resultsOnlyCalled(a.P, f.Parent()) {
 						ok = false
 					}
+				case *ssa.Phi:
+					// one of several closures chosen for a single return (`after := func(){}; if …
+					// { after = func(){…} }; return after`)
+					if !phiOnlyReturned(u, 0) || !resultsOnlyCalled(a.P, f.Parent()) {
+						ok = false
+					}
 				default:
 					ok = false
 				}
@@ -791,7 +797,29 @@ func (a *Analysis) CheckSingleRoot() []string {
 	}
 	var bad []string
 	for _, f := range a.order {
-		roots := map[*types.TypeName]map[ssa.Value]bool{}
+		roots := map[*types.TypeName]map[string]bool{}
+		// two loads of one field of one base (b.srv read twice: go/ssa does not merge them) are
+		// one root, provided the function never stores to that field
+		var rootKey func(v ssa.Value, depth int) string
+		rootKey = func(v ssa.Value, depth int) string {
+			v = ir.NormCell(v)
+			if u, ok := v.(*ssa.UnOp); ok && u.Op == token.MUL && depth < 4 {
+				if fa, ok := u.X.(*ssa.FieldAddr); ok {
+					written := false
+					ir.Instrs(f, func(i2 ssa.Instruction) {
+						if st, ok := i2.(*ssa.Store); ok {
+							if f2, ok := st.Addr.(*ssa.FieldAddr); ok && f2.Field == fa.Field && ir.FieldOwner(f2) == ir.FieldOwner(fa) {
+								written = true
+							}
+						}
+					})
+					if !written {
+						return fmt.Sprintf("(%s).%d", rootKey(fa.X, depth+1), fa.Field)
+					}
+				}
+			}
+			return fmt.Sprintf("%p", v)
+		}
 		ir.Instrs(f, func(ins ssa.Instruction) {
 			fa, ok := ins.(*ssa.FieldAddr)
 			if !ok {
@@ -802,9 +830,9 @@ func (a *Analysis) CheckSingleRoot() []string {
 				return
 			}
 			if roots[n.Obj()] == nil {
-				roots[n.Obj()] = map[ssa.Value]bool{}
+				roots[n.Obj()] = map[string]bool{}
 			}
-			roots[n.Obj()][ir.NormCell(fa.X)] = true
+			roots[n.Obj()][rootKey(fa.X, 0)] = true
 		})
 		for o, rs := range roots {
 			if len(rs) > 1 {
@@ -814,4 +842,24 @@ func (a *Analysis) CheckSingleRoot() []string {
 	}
 	sort.Strings(bad)
 	return bad
+}
+
+// phiOnlyReturned: every use of phi (through further phis) is a return.
+func phiOnlyReturned(phi *ssa.Phi, depth int) bool {
+	if depth > 3 {
+		return false
+	}
+	for _, r := range *phi.Referrers() {
+		switch u := r.(type) {
+		case *ssa.Return:
+		case *ssa.Phi:
+			if !phiOnlyReturned(u, depth+1) {
+				return false
+			}
+		case *ssa.DebugRef:
+		default:
+			return false
+		}
+	}
+	return true
 }
